@@ -258,6 +258,7 @@ def mutate_csv(rng, base):
 DATE_FMTS = [None, "[year]-[month]-[day]", "[month]/[day]/[year]", "[day].[month].[year]", "[year][month][day]", "[bogus]", "[year", "", "%Y-%m-%d",
              "[year]-[month]", "[month repr:short] [day], [year]", "[weekday] [day]", "[hour]:[minute]"]
 INIT_SPECS = [[], ["FOO:10:100"], ["FOO:0:0"], ["BAR:5.5:0"], ["FOO:1:2", "BAR:3:4"], ["NOPE:1:1"], ["FOO:1"], ["FOO:x:y"], ["FOO:-1:1"],
+              ["foo:10:100"], ["Foo:1:1", "bar:2:2"], [" FOO :3:30"], ["xyz:1:1", "vti:2:2", "qqq:3:3", "z:1:1", "abc.to:1:1"], ["FOO:1:1", "foo:2:2"],
               ["FOO:999999999999:999999999999"], ["FOO:0.0000000001:0.0000000001"], [""], [":::"], ["FOO:1:1", "FOO:2:2"]]
 
 
@@ -461,6 +462,10 @@ def build_population(tier, seed):
         text = gen.rows_to_csv(h["rows"], gen.used_cols(h["rows"]))
         fmt = rng.choice(DATE_FMTS)
         init = rng.choice(INIT_SPECS)
+        if rng.random() < 0.3:
+            # opening positions for the input's own securities, in another letter case
+            init = ["%s:%s:%s" % (rng.choice([sx.lower(), sx.title(), sx]), rng.choice(["1", "10.5", "0"]), rng.choice(["0", "100"]))
+                    for sx in sorted({r["sec"] for r in h["rows"]})]
         summ = None
         if rng.random() < 0.4:
             summ = {"date": rng.choice(["2000-01-01", "2015-06-30", "2030-12-31", "0001-01-01", "9999-12-31", "2020-02-30", "junk"]), "annual": rng.random() < 0.5}
